@@ -106,6 +106,14 @@ func genSubsetInAnyOrder(t *rapid.T, n int) []int {
 		return id
 	case 1: // everything, shuffled
 		return genPerm(t, n, "order")
+	case 3: // an interval or a prefix, ascending (block-copy fast paths)
+		lo := rapid.IntRange(0, n-1).Draw(t, "lo")
+		hi := rapid.IntRange(lo, n).Draw(t, "hi")
+		r := []int{}
+		for i := lo; i < hi; i++ {
+			r = append(r, i)
+		}
+		return r
 	case 2: // all but one or two, ascending
 		var r []int
 		skip := rapid.IntRange(0, n-1).Draw(t, "skip")
